@@ -1,2 +1,224 @@
-//! C11 workload (under construction).
-fn main() {}
+//! C11 — Montgomery multiplication / squaring: slice level for N = 1..=16 and
+//! through `Uint::{mul_redc, square_redc}`.
+
+use num_bigint::BigUint;
+use num_traits::{One, Zero};
+use ruint::{algorithms, Uint};
+use vmon::{au, big, gen, rng::Rng, uint, Arg, Mon};
+
+vmon::widths!(exec_uint; 1, 2, 7, 31, 63, 64, 65, 100, 127, 128, 129, 192, 193, 250, 255, 256, 257, 320, 384, 448, 512, 521, 768, 1024);
+
+/// inv = -m^-1 mod 2^64 by the harness's own Newton iteration (m odd).
+fn neg_inv64(m0: u64) -> u64 {
+    let mut x: u64 = 1; // correct to 1 bit for odd m0
+    for _ in 0..6 {
+        x = x.wrapping_mul(2u64.wrapping_sub(m0.wrapping_mul(x)));
+    }
+    debug_assert_eq!(m0.wrapping_mul(x), 1);
+    x.wrapping_neg()
+}
+
+/// r is the Montgomery product iff r < m and r * R == a * b (mod m).
+fn judge(m: &mut Mon, kind: &str, r: &[u64], a: &BigUint, b: &BigUint, md: &BigUint, n: usize) {
+    let br = big::big(r);
+    let lhs = (&br << (64 * n)) % md;
+    let rhs = (a * b) % md;
+    if !(br < *md) {
+        m.fail(&format!("{kind}.not-reduced"), &format!("result < m = {}", big::bhex(md)), &big::bhex(&br));
+    } else if lhs != rhs {
+        m.fail(&format!("{kind}.value"), &format!("r*R = a*b = {} (mod m)", big::bhex(&rhs)), &format!("r={} r*R mod m={}", big::bhex(&br), big::bhex(&lhs)));
+    }
+    m.obs(|| format!("result={}", big::bhex(&br)));
+}
+
+fn slice_go<const N: usize>(m: &mut Mon, a: &[u64], b: &[u64], md: &[u64]) {
+    let mut aa = [0u64; N];
+    let mut bb = [0u64; N];
+    let mut mm = [0u64; N];
+    aa.copy_from_slice(a);
+    bb.copy_from_slice(b);
+    mm.copy_from_slice(md);
+    let inv = neg_inv64(mm[0]);
+    let (ba, bb_, bm) = (big::big(a), big::big(b), big::big(md));
+    if let Some(r) = m.must_in("algorithms::mul_redc", || algorithms::mul_redc(aa, bb, mm, inv)) {
+        judge(m, "mul_redc", &r, &ba, &bb_, &bm, N);
+    }
+    if let Some(r) = m.must_in("algorithms::square_redc", || algorithms::square_redc(aa, mm, inv)) {
+        judge(m, "square_redc", &r, &ba, &ba, &bm, N);
+    }
+    // squaring through mul must agree as well (b := a)
+    if let Some(r) = m.must_in("algorithms::mul_redc(a,a)", || algorithms::mul_redc(aa, aa, mm, inv)) {
+        judge(m, "mul_redc.square", &r, &ba, &ba, &bm, N);
+    }
+}
+
+macro_rules! slice_dispatch {
+    ($($n:literal),*) => {
+        fn slice_level(m: &mut Mon, n: usize, a: &[u64], b: &[u64], md: &[u64]) {
+            match n {
+                $($n => slice_go::<$n>(m, a, b, md),)*
+                _ => panic!("harness: N={n} not instantiated"),
+            }
+        }
+    };
+}
+slice_dispatch!(1, 2, 3, 4, 5, 6, 7, 8, 9, 10, 11, 12, 13, 14, 15, 16);
+
+fn exec_uint<const B: usize, const L: usize>(m: &mut Mon, _op: &str, a: &[Arg]) {
+    let (x, y, md): (Uint<B, L>, Uint<B, L>, Uint<B, L>) = (uint(a[0].u()), uint(a[1].u()), uint(a[2].u()));
+    let inv = neg_inv64(a[2].u()[0]);
+    let (ba, bb, bm) = (big::big(a[0].u()), big::big(a[1].u()), big::big(a[2].u()));
+    if let Some(r) = m.must_in("Uint::mul_redc", || x.mul_redc(y, md, inv)) {
+        m.canonical(&r);
+        judge(m, "uint.mul_redc", r.as_limbs(), &ba, &bb, &bm, L);
+    }
+    if let Some(r) = m.must_in("Uint::square_redc", || x.square_redc(md, inv)) {
+        m.canonical(&r);
+        judge(m, "uint.square_redc", r.as_limbs(), &ba, &ba, &bm, L);
+    }
+}
+
+fn dispatch_all(m: &mut Mon, bits: usize, op: &str, a: &[Arg]) {
+    let nt = |x: &[u64]| big::big(x) > BigUint::one();
+    m.nontrivial(nt(a[0].u()) && nt(a[1].u()));
+    match op {
+        "slice" => slice_level(m, a[2].u().len(), a[0].u(), a[1].u(), a[2].u()),
+        "uint" => dispatch(m, bits, op, a),
+        _ => panic!("harness: unknown op {op}"),
+    }
+}
+
+/// Odd modulus >= 3 below 2^bits with a chosen top limb class.
+fn modulus(r: &mut Rng, bits: usize, class: usize) -> Vec<u64> {
+    let l = gen::nlimbs(bits);
+    let mask = gen::mask(bits);
+    let mut v: Vec<u64> = (0..l).map(|_| gen::alpha_limb(r)).collect();
+    let top = match class % 14 {
+        0 => 0, // short modulus
+        1 => 1,
+        2 => (1u64 << 62) - 2,
+        3 => (1u64 << 62) - 1,
+        4 => 1u64 << 62,
+        5 => (1u64 << 63) - 2,
+        6 => (1u64 << 63) - 1,
+        7 => 1u64 << 63,
+        8 => u64::MAX,
+        9 => u64::MAX - 1,
+        10 => (1u64 << 62) + 1,
+        11 => (1u64 << 63) + 1,
+        12 => r.u64(),
+        _ => gen::alpha_limb(r),
+    };
+    v[l - 1] = top & mask;
+    if class % 14 == 0 && l >= 2 && r.bool() {
+        // several zero limbs on top
+        let z = r.range(1, l - 1);
+        for x in v.iter_mut().rev().take(z) {
+            *x = 0;
+        }
+    }
+    if r.chance(1, 6) {
+        for x in v.iter_mut().take(l - 1) {
+            *x = u64::MAX;
+        }
+    }
+    v[0] |= 1;
+    let mut v = gen::canon(v, bits);
+    if big::big(&v) < BigUint::from(3u8) {
+        v[0] = 3 & if l == 1 { mask } else { u64::MAX };
+        if big::big(&v) < BigUint::from(3u8) {
+            return vec![]; // width cannot hold an odd modulus >= 3
+        }
+    }
+    v
+}
+
+fn operand(r: &mut Rng, md: &[u64], bits: usize) -> Vec<u64> {
+    let bm = big::big(md);
+    let l = md.len();
+    let v = match r.below(10) {
+        0 => BigUint::zero(),
+        1 => BigUint::one(),
+        2 => BigUint::from(2u8),
+        3 => &bm - 1u8,
+        4 => &bm - 2u8,
+        5 => &bm >> 1,
+        6 => (&bm >> 1) + 1u8,
+        7 => big::big(&gen::uniform(r, bits)) % &bm,
+        _ => big::big(&gen::alphabet(r, bits)) % &bm,
+    };
+    big::limbs(&(v % &bm), l)
+}
+
+fn workload(m: &mut Mon) {
+    // slice level, N = 1..=16
+    for n in 1..=16usize {
+        let bits = 64 * n;
+        let mut r = m.stream("c11.slice", n);
+        let reps = m.iters(if n <= 8 { 160 } else { 60 });
+        for class in 0..14 {
+            for _ in 0..reps {
+                if !m.keep() {
+                    continue;
+                }
+                let md = modulus(&mut r, bits, class);
+                if md.is_empty() {
+                    continue;
+                }
+                let a = operand(&mut r, &md, bits);
+                let b = operand(&mut r, &md, bits);
+                m.case("slice", bits, vec![au(&a), au(&b), au(&md)]);
+            }
+            if m.time_up() {
+                return;
+            }
+        }
+    }
+    if !m.is_light() {
+        m.mark_exhaustive("every N in 1..=16 x 14 top-limb classes of the modulus (0, 1, 2^62-2..2^62+1, 2^63-2..2^63+1, MAX-1, MAX, random, alphabet); operand contents sampled");
+    }
+    // Uint level, aligned and non-aligned widths
+    for &bits in WIDTHS {
+        if !m.width_enabled(bits) {
+            continue;
+        }
+        let mut r = m.stream("c11.uint", bits);
+        let reps = m.iters(if bits <= 512 { 100 } else { 40 });
+        for class in 0..14 {
+            for _ in 0..reps {
+                if !m.keep() {
+                    continue;
+                }
+                let md = modulus(&mut r, bits, class);
+                if md.is_empty() {
+                    continue;
+                }
+                let a = operand(&mut r, &md, bits);
+                let b = operand(&mut r, &md, bits);
+                m.case("uint", bits, vec![au(&a), au(&b), au(&md)]);
+            }
+            if m.time_up() {
+                return;
+            }
+        }
+        // modulus with the top limb equal to the mask (non-aligned widths)
+        let mut md = gen::max(bits);
+        md[0] |= 1;
+        if big::big(&md) >= BigUint::from(3u8) {
+            for _ in 0..m.iters(20) {
+                let a = operand(&mut r, &md, bits);
+                let b = operand(&mut r, &md, bits);
+                m.case("uint", bits, vec![au(&a), au(&b), au(&md)]);
+            }
+        }
+    }
+}
+
+fn main() {
+    let mut m = Mon::new("C11", dispatch_all);
+    m.use_hooks = true;
+    if !m.replay_if_requested() {
+        workload(&mut m);
+    }
+    m.finish();
+}
